@@ -562,8 +562,7 @@ func RunC10(tier string) {
 	smp := &evid.Samples{N: 10}
 	var total seqx.Stats
 	spec := c10Spec(tier, "usage-reports")
-	st := seqx.Explore(run, spec, tier, smp)
-	seqx.Merge(run, "usage-reports", st, &total)
+	st := seqx.ExploreOrders(run, spec, tier, smp, &total, true)
 	seqx.Finish(run, total, smp, fmt.Sprintf("two sessions on two peers with equal CP SEIDs; URRs with method VOLUM / DURAT / VOLUM+DURAT / EVENT x MNOP; ticks, Query / Remove / Update URR (update answered with and without a report), takeover of a session by a fresh node id, deletion, re-establishment to depth %d (completed %d); in every reached state a batch sweep: all 1- and 2-report arrangements over {live, unknown, ended} sessions x {known, unknown} URRs, 3-report batches, the 17 single-cause triggers (+REEMR), 7 boundary counter sets", spec.MaxDepth, st.DepthDone))
 	run.Assumption("the simulated kernel stands for gtp5g: reports enter as genuine netlink REPORT notifications handed to the real buffnetlink.Server, as answers to DEL_URR / ADD_URR(replace) / GET_REPORT / GET_MULTI_REPORTS, and through injected ticks")
 	run.Assumption("duration values are not judged (gtp5g does not measure them), only the IE's presence; an empty Session Report Request emitted when every report of a batch was dropped is not judged")
